@@ -191,14 +191,66 @@ def build_objs(flavour, pool, cxx=CXX):
     return objs, jobs
 
 
-def link(out, objs, flags, libs, cxx=CXX):
+def link(out, objs, flags, libs, cxx=CXX, cflags=None):
     stamp = out + ".stamp"
     extra = cxx + " " + " ".join(flags + libs)
     if os.path.exists(out) and stamp_ok(stamp, objs, extra):
         return
-    sh([cxx] + flags + objs + ["-o", out + ".tmp"] + libs)
+    cmd = [cxx] + flags + objs + ["-o", out + ".tmp"] + libs
+    r = subprocess.run(cmd, stdout=subprocess.PIPE, stderr=subprocess.STDOUT)
+    if r.returncode != 0:
+        shim = odr_shim(r.stdout.decode(errors="replace"), out, cflags or flags, cxx)
+        if shim is None:
+            sys.stderr.write("BUILD FAILED: %s\n%s\n" % (" ".join(cmd), r.stdout.decode(errors="replace")))
+            raise SystemExit(3)
+        sh([cxx] + flags + objs + [shim, "-o", out + ".tmp"] + libs)
     os.replace(out + ".tmp", out)
     write_stamp(stamp, objs, extra)
+
+
+def odr_shim(output, out, cflags, cxx):
+    """The project is built with g++ -O2, which folds every use of a `static T const m = value;` class member
+    into the value, so a change may bind a reference to such a member (an odr-use, which strictly needs an
+    out-of-line definition the sources do not have) and still build there.  clang keeps the reference and the
+    link of the instrumented flavours fails.  Only then: supply exactly the missing definitions
+    (`T const C::m;`, the value stays the in-class initialiser) in a generated translation unit.  Returns the
+    object file, or None when the link failure is about anything else."""
+    import re, glob
+    syms = sorted(set(re.findall(r"undefined reference to `([A-Za-z_][\w:]*::\w+)'", output)))
+    others = [l for l in output.splitlines() if "undefined reference" in l and not re.search(r"undefined reference to `([A-Za-z_][\w:]*::\w+)'", l)]
+    if not syms or others:
+        return None
+    hdrs = sorted(glob.glob(os.path.join(LZ, "*.hh")) + glob.glob(os.path.join(LZ, "*.h")))
+    incs, defs_a, defs_b = [], [], []
+    for sym in syms:
+        cls, mem = sym.rsplit("::", 1)
+        found = None
+        for h in hdrs:
+            txt = open(h, errors="replace").read()
+            if not re.search(r"\b(class|struct)\s+%s\b" % re.escape(cls.split("::")[-1]), txt):
+                continue
+            m = re.search(r"\bstatic\s+(constexpr\s+)?([^;(){}=]*?)\b%s\s*(=|\{)" % re.escape(mem), txt)
+            if m:
+                found = (h, " ".join(m.group(2).split()), bool(m.group(1)))
+                break
+        if found is None:
+            return None
+        h, typ, cexpr = found
+        if h not in incs:
+            incs.append(h)
+        defs_a.append("decltype (%s) %s;" % (sym, sym))
+        defs_b.append("%s%s %s;" % ("constexpr " if cexpr else "", typ, sym))
+    src = out + ".odr-shim.cc"
+    obj = out + ".odr-shim.o"
+    for defs in (defs_a, defs_b):
+        with open(src, "w") as f:
+            f.write("// generated by build.py: definitions of odr-used in-class-initialised static members\n")
+            f.write("".join('#include "%s"\n' % h for h in incs) + "\n".join(defs) + "\n")
+        r = subprocess.run([cxx] + cflags + ["-c", src, "-o", obj], stdout=subprocess.PIPE, stderr=subprocess.STDOUT)
+        if r.returncode == 0:
+            sys.stderr.write("build: supplied missing definitions of %s\n" % ", ".join(syms))
+            return obj
+    return None
 
 
 def main(argv):
@@ -251,17 +303,17 @@ def main(argv):
         for j in jobs:
             j.result()
     if "drv" in want:
-        link(os.path.join(bindir, "zwdrv"), [extra["zwdrv"]] + asan_objs, SAN, LIBS)
+        link(os.path.join(bindir, "zwdrv"), [extra["zwdrv"]] + asan_objs, SAN, LIBS, cflags=FLAVOURS["asan"])
     if "cli" in want:
-        link(os.path.join(bindir, "dwgrep"), [extra["dwgrep"], extra["options"]] + asan_objs, SAN, LIBS)
+        link(os.path.join(bindir, "dwgrep"), [extra["dwgrep"], extra["options"]] + asan_objs, SAN, LIBS, cflags=FLAVOURS["asan"])
     if "clip" in want:
-        link(os.path.join(bindir, "dwgrep-plain"), [extra["dwgrep-plain"], extra["options-plain"]] + plain_objs, [], LIBS, PLAIN_CXX)
+        link(os.path.join(bindir, "dwgrep-plain"), [extra["dwgrep-plain"], extra["options-plain"]] + plain_objs, [], LIBS, PLAIN_CXX, cflags=FLAVOURS["plain"])
     if "fuzz" in want:
-        link(os.path.join(bindir, "fuzz_query"), [extra["fuzz_query"]] + fuzz_objs, SAN + ["-fsanitize=fuzzer"], LIBS)
+        link(os.path.join(bindir, "fuzz_query"), [extra["fuzz_query"]] + fuzz_objs, SAN + ["-fsanitize=fuzzer"], LIBS, cflags=FLAVOURS["fuzz"])
     if "hint" in want:
-        link(os.path.join(bindir, "h_int"), [extra["h_int"], extra["int_only"]], SAN, ["-lrapidcheck"])
+        link(os.path.join(bindir, "h_int"), [extra["h_int"], extra["int_only"]], SAN, ["-lrapidcheck"], cflags=FLAVOURS["asan"])
     if "hcov" in want:
-        link(os.path.join(bindir, "h_cov"), [extra["h_cov"], extra["cov_only"]], SAN, ["-lrapidcheck"])
+        link(os.path.join(bindir, "h_cov"), [extra["h_cov"], extra["cov_only"]], SAN, ["-lrapidcheck"], cflags=FLAVOURS["asan"])
     sys.stderr.write("build ok (%s) in %.1fs\n" % (",".join(sorted(want)), time.time() - t0))
     fcntl.flock(lock, fcntl.LOCK_UN)
 
